@@ -19,6 +19,7 @@ import LlgVerif.Model.FloatRange
 import LlgVerif.Model.NumSat
 import LlgVerif.Model.Earley
 import LlgVerif.Model.Schema
+import LlgVerif.Model.Lexer
 open LlgVerif Drv
 
 def wordsOf (l : List Nat) : List Word := l.map (fun n => BitVec.ofNat 32 n)
@@ -47,6 +48,7 @@ structure St where
   cfgs : List (Nat × (Cfg.Gram Nat × Nat)) := []
   jschemas : List (Nat × Js.Json) := []
   eys : List (Nat × Ey.CG) := []
+  lxs : List (Nat × Lx.Cfg) := []
 
 /-- DFA over byte classes: `cls[b]` in `0..k`, `trans[q*k + c]` = successor, `≥ n` = dead. -/
 structure TDfa where
@@ -798,6 +800,53 @@ def handleInto (args : List String) : String :=
     | _, _, _, _ => "bad-op"
   | _ => "bad-op"
 
+
+/-! byte-level engine (M5): `lx def <id> <eyid> <skipId|-> <initialSkip> <rxid/lazy/skip/once;...>` (regexes
+defined before by `rx def`); `lx run <id> <hex>` -> state after the bytes: scanned lexeme sets, lexemes
+possible / accepting in the lexer state, pending flag, accepting flag, allowed bytes -/
+
+def showSets (l : List (List Nat)) : String :=
+  if l.isEmpty then "-" else "|".intercalate (l.map (fun s => showNatList (canonSet s)))
+
+def showByteSet (l : List Nat) : String :=
+  -- 256 bits as 64 hex digits, bit b of the set = byte b
+  String.ofList ((List.range 64).map (fun k =>
+    let v := (List.range 4).foldl (fun acc j => if l.contains (4 * k + j) then acc + 2 ^ j else acc) 0
+    if v < 10 then Char.ofNat (48 + v) else Char.ofNat (87 + v)))
+
+def handleLx (st : St) (args : List String) : St × String :=
+  match args with
+  | ["def", id, eyid, skip, ini, lexemes] =>
+    let lexeme? := fun (e : String) => match e.splitOn "/" with
+      | [rx, lz, sk, on] => do
+        let rx ← rx.toNat?
+        let ent ← st.rxs.find? (fun (e : Nat × LlgVerif.Dfa) => e.1 = rx)
+        let d := ent.2
+        pure ({ dfa := d, isLazy := lz = "1", skip := sk = "1", once := on = "1" } : Lx.Lexeme)
+      | _ => none
+    let skipO : Option (Option Nat) := if skip = "-" then some none else skip.toNat?.map some
+    match parseNat? id, parseNat? eyid, skipO, (lexemes.splitOn ";").mapM lexeme? with
+    | some id, some eyid, some skipId, some lxs =>
+      match st.eys.find? (·.1 = eyid) with
+      | some (_, g) =>
+        let C : Lx.Cfg := { g := g, lexemes := lxs.toArray, skipId := skipId, initialSkip := ini = "1" }
+        if !C.wf then (st, "bad-cert") else
+        ({ st with lxs := (id, C) :: st.lxs.filter (·.1 ≠ id) }, "ok")
+      | none => (st, "no-such-grammar")
+    | _, _, _, _ => (st, "bad-op")
+  | ["run", id, w] =>
+    match parseNat? id, parseHex? w with
+    | some id, some w =>
+      match st.lxs.find? (·.1 = id) with
+      | some (_, C) =>
+        match Lx.run C (Lx.init C) w with
+        | some s =>
+          (st, s!"ok lexs={showSets s.lexs} po={showNatList (canonSet (Lx.possible s.ls))} ac={showNatList (canonSet (Lx.accepting C s.ls))} pend={showBool s.pending} acc={showBool (Lx.isAccepting C s)} rows={s.rows.length} mask={showByteSet (Lx.allowedBytes C s)}")
+        | none => (st, "dead")
+      | none => (st, "no-such-lx")
+    | _, _ => (st, "bad-op")
+  | _ => (st, "bad-op")
+
 def step (st : St) (line : String) : St × String :=
   match words line with
   | "parcopy" :: args => (st, handleParcopy args)
@@ -817,6 +866,7 @@ def step (st : St) (line : String) : St × String :=
   | "opt" :: args => (st, handleOpt args)
   | "json" :: args => handleJson st args
   | "ey" :: args => handleEy st args
+  | "lx" :: args => handleLx st args
   | "sch" :: args => (st, handleSch args)
   | "rb" :: args => handleRb st args
   | ["reset"] => ({}, "ok")
